@@ -179,6 +179,20 @@ CLAIMED["C16"] = (
     "DESIGN.md 3 C16",
 )
 
+CLAIMED["C17"] = (
+    XH + " for the writers' state machines (inductive step of SplitWriter.write, bounded runs, call histories per adapter on stand-in sinks, PathTemplateWriter over a dictionary "
+    "file system); " + SMT + " (string theory) for the part-name suffix of SplitWriter._next_path",
+    "SplitWriter.write keeps 0 <= written < count and rotates exactly at the limit for ALL written/count; runs of N <= 6 (12) writes with symbolic N and count give parts that are "
+    "full, closed, never re-opened and concatenate to the input; the suffix expression taken from the AST equals the zero-padded decimal for every part index (unbounded); every "
+    "history of K <= 4 (5) write/flush/close/exit calls on the stream, JSON, Avro (all spontaneous-flush patterns), SQLite, CSV, line, text and split writers leaves everything written "
+    "in the sink with the sink closed, and an empty stream/JSON/Avro/SQLite output is valid; PathTemplateWriter puts each of 3 (4) records of every bucket order, with every subset of "
+    "pre-existing targets and a same-second or ticking clock, into the file its template names, never opening an existing file for writing and never renaming onto an existing name. "
+    "A sweep of all histories K <= 3 on real files with the real libraries validates the stand-ins (concrete side condition).",
+    "Stand-ins: sinks, fastavro block writer, sqlite3 connection, sub-writers, dictionary file system, clock. Outside: durability, compression layers, writes after close. "
+    "Known finding K3 (stream writer closed before any flush leaves a 0-byte file; pinned by the suite) is listed in known_findings.json.",
+    "DESIGN.md 3 C17",
+)
+
 NOT_APPLICABLE = {
     "C13": "every operation the property constrains (datetime construction/arithmetic, fromisoformat, zoneinfo, fastavro/sqlite3 conversions) is C code; "
     "CrossHair realises each datetime component at the C constructor and the repo-side logic is two value-free ifs, so no value-level case would be decided by the solver (DESIGN.md 6)",
